@@ -144,6 +144,98 @@ def opIdString (args : List String) : String :=
     | _, _ => "bad-op"
   | _ => "bad-op"
 
+section geom
+open Matid.Geom
+
+def parseV3s? (s : String) : Option (List V3) := do
+  let l ← parseList? parseRat? s
+  if l.length % 3 != 0 then none else
+  pure ((List.range (l.length / 3)).map fun i => (l.getD (3 * i) 0, l.getD (3 * i + 1) 0, l.getD (3 * i + 2) 0))
+
+def parseCell? (s : String) : Option Cell := do
+  match ← parseV3s? s with
+  | [a, b, c] => pure { a := a, b := b, c := c }
+  | _ => none
+
+def parsePbc? (s : String) : Option Pbc :=
+  match s.toList with
+  | [x, y, z] => some { x := x == '1', y := y == '1', z := z == '1' }
+  | _ => none
+
+def parseCutoff? (s : String) : Option (Option Rat) := if s == "inf" then some none else (parseRat? s).map some
+
+def showF (f : Int × Int × Int) : String := s!"{f.1},{f.2.1},{f.2.2}"
+def showV (v : V3) : String := showRat v.1 ++ "," ++ showRat v.2.1 ++ "," ++ showRat v.2.2
+
+/-- `extend <cell> <pbc> <cutoff> <positions>` -/
+def opExtend (args : List String) : String :=
+  match args with
+  | [cs, ps, cut, pos] =>
+    match parseCell? cs, parsePbc? ps, parseRat? cut, parseV3s? pos with
+    | some c, some p, some cutoff, some positions =>
+      match extendSystem positions c p cutoff with
+      | .error .negativeCutoff => "ValueError"
+      | .error .degenerate => "degenerate"
+      | .ok l => ";".intercalate (l.map fun a => toString a.index ++ ":" ++ showF a.factor ++ ":" ++ showV a.pos)
+    | _, _, _, _ => "bad-op"
+  | _ => "bad-op"
+
+/-- `query <cell> <pbc> <extension> <cutoff|inf> <positions> <q>` ; also prints whether the 27-bin search
+agrees with the brute-force specification -/
+def opQuery (args : List String) : String :=
+  match args with
+  | [cs, ps, ext, cut, pos, qs] =>
+    match parseCell? cs, parsePbc? ps, parseRat? ext, parseCutoff? cut, parseV3s? pos, parseV3s? qs with
+    | some c, some p, some extension, some cutoff, some positions, some [q] =>
+      match getCellList positions c p extension cutoff with
+      | .error .value => "ValueError"
+      | .error .degenerate => "degenerate"
+      | .ok cl =>
+        let r := cl.query q
+        let spec := cl.querySpec q
+        let agree := (r.map (·.ext)) == (spec.map (·.ext))
+        (if agree then "" else "BINS-DIFFER-FROM-SPEC ") ++
+        ";".intercalate (r.map fun n => toString n.ext ++ ":" ++ toString n.index ++ ":" ++ showRat n.dist2 ++ ":" ++ showV n.disp ++ ":" ++ showF n.factor)
+    | _, _, _, _, _, _ => "bad-op"
+  | _ => "bad-op"
+
+/-- `disp <cell> <pbc> <cutoff|inf> <positions>` : entries (i, j), j < i -/
+def opDisp (args : List String) : String :=
+  match args with
+  | [cs, ps, cut, pos] =>
+    match parseCell? cs, parsePbc? ps, parseCutoff? cut, parseV3s? pos with
+    | some c, some p, some cutoff, some positions =>
+      match tensorCellList positions c p cutoff with
+      | .error .value => "ValueError"
+      | .error .degenerate => "degenerate"
+      | .ok cl =>
+        let n := positions.length
+        let entries := (List.range n).flatMap fun i => (List.range i).map fun j =>
+          match pairEntry cl (positions.getD i V3.zero) j with
+          | none => s!"{i},{j}:inf"
+          | some e => s!"{i},{j}:" ++ showRat e.dist2 ++ ":" ++ "|".intercalate (e.factors.map showF)
+        ";".intercalate entries
+    | _, _, _, _ => "bad-op"
+  | _ => "bad-op"
+
+/-- `match <cell> <pbc> <extension> <cutoff> <tol> <positions> <numbers> <q> <z>` -/
+def opMatch (args : List String) : String :=
+  match args with
+  | [cs, ps, ext, cut, tolS, pos, nums, qs, zs] =>
+    match parseCell? cs, parsePbc? ps, parseRat? ext, parseCutoff? cut, parseRat? tolS, parseV3s? pos, parseList? parseNat? nums, parseV3s? qs, zs.toNat? with
+    | some c, some p, some extension, some cutoff, some tol, some positions, some numbers, some [q], some z =>
+      match getCellList positions c p extension cutoff with
+      | .error .value => "ValueError"
+      | .error .degenerate => "degenerate"
+      | .ok cl =>
+        let r := getMatch cl c numbers q z tol
+        let k := match r.kind with | .hit => "match" | .substitution => "substitution" | .vacancy => "vacancy"
+        k ++ ":" ++ "|".intercalate (r.answers.map fun a => toString a.1 ++ "/" ++ showF a.2)
+    | _, _, _, _, _, _, _, _, _ => "bad-op"
+  | _ => "bad-op"
+
+end geom
+
 def step (line : String) : String :=
   match words line with
   | "radii" :: args => opRadii args
@@ -154,6 +246,10 @@ def step (line : String) : String :=
   | "applynorm" :: args => opApplyNorm args
   | "sets" :: args => opSets args
   | "idstring" :: args => opIdString args
+  | "extend" :: args => opExtend args
+  | "query" :: args => opQuery args
+  | "disp" :: args => opDisp args
+  | "match" :: args => opMatch args
   | _ => "bad-op"
 
 partial def loop (h : IO.FS.Stream) (out : IO.FS.Stream) : IO Unit := do
